@@ -303,11 +303,15 @@ where
         }
 
         // Set `remaining_y` to `0` if `width == 0` to prevent integer underflow in `next`.
-        let remaining_y = if size.width > 0 { size.height } else { 0 };
+        let remaining_y = if size.width > 0 {
+            size.height.saturating_sub(1)
+        } else {
+            0
+        };
 
         Self {
             iter,
-            remaining_x: size.width,
+            remaining_x: if size.height > 0 { size.width } else { 0 },
             width: size.width,
             remaining_y,
             row_skip,
